@@ -381,6 +381,34 @@ func (s *C13) sequential(c *scen.Ctx) {
 		rr.VerifSetCursor(1<<32 - uint64(1+simrt.Draw(30, "c13.cursoroff")))
 		c.Count("probe.cursor_near_2^32", 1)
 	}
+	// an update the selector rejects (adding a host that is a member already, removing one that is
+	// not) leaves the set unchanged: the rotation goes on as if nothing had been asked
+	rejected := func() {
+		var out []endpoint.Endpoint
+		for _, e := range s.universe {
+			in := false
+			for _, x := range set {
+				in = in || x.Host == e.Host
+			}
+			if !in {
+				out = append(out, e)
+			}
+		}
+		if len(out) > 0 && simrt.Draw(2, "c13.rejectedkind") == 1 {
+			if rr.Remove(out[simrt.Draw(len(out), "c13.rejectedwhich")]) == nil {
+				s.seqFail = append(s.seqFail, "Remove of an endpoint that is no member returned no error")
+			}
+		} else if rr.Add(set[simrt.Draw(len(set), "c13.rejectedwhich")]) == nil {
+			s.seqFail = append(s.seqFail, "Add of a host that is a member already returned no error")
+		}
+		c.Count("probe.rejected_update_inside_a_rotation_window", 1)
+	}
+	rejectAt := func(window int) int {
+		if simrt.Draw(3, "c13.rejected") == 2 {
+			return simrt.Draw(window, "c13.rejectedat")
+		}
+		return -1
+	}
 	allStatic, allPos := true, true
 	var wmax, wmin int32 = -1 << 31, 1<<31 - 1
 	for _, e := range set {
@@ -425,7 +453,11 @@ func (s *C13) sequential(c *scen.Ctx) {
 			rr.Select(msg{})
 		}
 		got := map[string]int{}
+		ra := rejectAt(L)
 		for i := 0; i < L; i++ {
+			if i == ra {
+				rejected()
+			}
 			ep, err := rr.Select(msg{})
 			if err != nil {
 				s.seqFail = append(s.seqFail, fmt.Sprintf("weighted round-robin over %d endpoints returned an error: %v", n, err))
@@ -448,7 +480,11 @@ func (s *C13) sequential(c *scen.Ctx) {
 	}
 	for round := 0; round < 2; round++ {
 		seen := map[string]int{}
+		ra := rejectAt(n)
 		for i := 0; i < n; i++ {
+			if i == ra {
+				rejected()
+			}
 			ep, err := rr.Select(msg{})
 			if err != nil {
 				s.seqFail = append(s.seqFail, fmt.Sprintf("round-robin over %d endpoints returned an error: %v", n, err))
